@@ -47,6 +47,7 @@ class C30(S.SchedCheck):
         return T.request_head("doado", case)
 
     def run_impl(self, case):
+        T.settle_heap()
         return T.PairObs(S.run_program(case, "do"), S.run_program(case, "ado"))
 
     def nontrivial(self, case, obs):
